@@ -14,7 +14,7 @@ RULE = ("every set of entries after the leading host operator with, per correlat
         "on a stream, Event Sync / Context Sync on stream -1}, optionally a host op without correlation and a GPU "
         "annotation without correlation or an Event/Context Sync record without correlation id; x every file order (all permutations up to P entries, else identity, "
         "reversal, rotations) and x padding with metadata entries so that event ids exceed 127 / 255 / 32767 while "
-        "correlation ids stay small; plus a slice with correlated host annotations whose names merely start with 'Event Sync' / "
+        "correlation ids stay small; every pattern also with the device records starting before their host calls; plus a slice with correlated host annotations whose names merely start with 'Event Sync' / "
         "'Context Sync' (paired with a GPU annotation or a kernel); plus a trimmed slice (2-3 profiler steps, launches at every position, so that the "
         "loader drops events: links inside the loaded frame must stay mutual and point to present rows); checked after parse_trace_file and after load_traces. non-trivial = contains a "
         "linked pair and a missing partner or a stream -1 sync record")
@@ -121,6 +121,12 @@ def worlds(tier: str, stats: Dict[str, Any]) -> Iterator[Any]:
                 stats["transitions"] += 1
                 evs = [kineto.cpu_op("aten::root", E0, 100, ext=0)] + [ents[k] for k in o]
                 yield dict(pattern=sig, corr=cs, order=o, pad=0, events=evs)
+            # clock skew: every device record starts before its host call (the statement puts no condition on times)
+            if any(x in ("K", "Y", "S", "E", "C") for x in (d1, d2)) and (h1 or h2):
+                stats["transitions"] += 1
+                early = [dict(e, ts=e["ts"] - 8) if e.get("pid") == kineto.DEV_PID else e for e in ents]
+                yield dict(pattern=sig + "/device-early", corr=cs, order=list(range(len(ents))), pad=0,
+                           events=[kineto.cpu_op("aten::root", E0, 100, ext=0)] + early)
             # event ids far larger than the correlation ids (ids are file positions): pad with metadata entries
             for pad in b["pads"] + (b["pads_few"] if (h1 == "L" and d1 == "K" and not hh and not aa) else []):
                 stats["transitions"] += 1
